@@ -29,11 +29,13 @@ func init() {
 
 // churnCase is one serial membership history.
 type churnCase struct {
-	Universe []uint64         `json:"universe"`
-	First    uint64           `json:"first"`
-	Events   []chordlib.Event `json:"events"`
-	Rot      int              `json:"rot"`
-	KV       bool             `json:"kv"`
+	Universe   []uint64         `json:"universe"`
+	First      uint64           `json:"first"`
+	Events     []chordlib.Event `json:"events"`
+	Rot        int              `json:"rot"`
+	KV         bool             `json:"kv"`
+	Bulk       int              `json:"bulk,omitempty"`
+	BulkEvents []chordlib.Event `json:"bulk_events,omitempty"`
 }
 
 type churnOut struct {
@@ -82,6 +84,30 @@ func runChurn(cs churnCase) churnOut {
 		if cs.KV {
 			if a := w.Workload(cs.Rot); a != "" && out.c03 == "" {
 				out.c03 = "non-retryable KV failure during churn: " + a
+			}
+		}
+	}
+	// bulk leg: a key range of more than a thousand keys changes hands (batching in the
+	// transfer path must not leave copies behind)
+	if cs.Bulk > 0 {
+		for i := 0; i < cs.Bulk; i++ {
+			k := fmt.Sprintf("bulk%04d", i)
+			n := w.Ring.Sorted()[i%len(w.Ring.Nodes)]
+			if err := n.Put(chordlib.Ctx, []byte(k), []byte("b"+k)); err == nil {
+				w.Model.Simple[k] = "b" + k
+				w.Keys = append(w.Keys, k)
+			}
+		}
+		for ei, e := range cs.BulkEvents {
+			w.Apply(e)
+			// deletes after the first hand-over only: a stale copy left at the previous owner
+			// would bring them back when the range moves again
+			for i := 0; i < cs.Bulk && ei == 0; i += 7 {
+				k := fmt.Sprintf("bulk%04d", i)
+				n := w.Ring.Sorted()[0]
+				if err := n.Delete(chordlib.Ctx, []byte(k)); err == nil {
+					delete(w.Model.Simple, k)
+				}
 			}
 		}
 	}
@@ -188,6 +214,17 @@ func churn(c *report.Check, prop string) {
 			}
 		})
 	}
+	if kv {
+		// bulk hand-over cases: 1300 keys, a join that takes over a large arc, then the joiner leaves again
+		a, b := u[0], M-2 // b takes over almost the whole identifier space: > 1000 keys change hands at once
+		for _, evs := range [][]chordlib.Event{
+			{{Kind: "join", X: b, Via: a, Quiesce: true}},
+			{{Kind: "join", X: b, Via: a, Quiesce: true}, {Kind: "leave", X: b, Quiesce: true}},
+			{{Kind: "join", X: b, Via: a, Quiesce: true}, {Kind: "leave", X: a, Quiesce: true}},
+		} {
+			cases = append(cases, churnCase{Universe: u, First: a, KV: true, Bulk: 1300, BulkEvents: evs})
+		}
+	}
 	var mu sync.Mutex
 	dist := report.NewDistinct(5)
 	finals := map[string]bool{}
@@ -214,8 +251,12 @@ func churn(c *report.Check, prop string) {
 				}
 				dist.See(fmt.Sprintf("%v=>%d", shape, len(o.live)), map[string]any{"first": cs.First, "events": evStrings(cs.Events), "final_ring": o.live, "notes": o.notes})
 				if v != "" {
-					c.Violation(fmt.Sprintf("%s:first%d:%s:rot%d", strings.ToLower(prop), cs.First, strings.Join(evStrings(cs.Events), ","), cs.Rot),
-						fmt.Sprintf("history create(%d) %v: %s", cs.First, evStrings(cs.Events), v), cs)
+					evs := evStrings(cs.Events)
+					if cs.Bulk > 0 {
+						evs = append([]string{fmt.Sprintf("bulk-put(%d keys)", cs.Bulk)}, evStrings(cs.BulkEvents)...)
+					}
+					c.Violation(fmt.Sprintf("%s:first%d:%s:rot%d", strings.ToLower(prop), cs.First, strings.Join(evs, ","), cs.Rot),
+						fmt.Sprintf("history create(%d) %v: %s", cs.First, evs, v), cs)
 				}
 				mu.Unlock()
 			}
@@ -236,7 +277,17 @@ func churn(c *report.Check, prop string) {
 	if c.Thorough() {
 		ns = 32 // many small shards balance the long tail of the deepest sub-trees
 	}
-	plans := []e2.Plan{{Scns: scns, Bound: cb, NShards: ns}, {Scns: concMaintScenarios(), Bound: cb, NShards: ns}}
+	var two, three []string
+	for _, sc := range scns {
+		if strings.Count(strings.Split(sc, "|")[1], ";") >= 2 {
+			three = append(three, sc)
+		} else {
+			two = append(two, sc)
+		}
+	}
+	// three-thread races and the maintenance-thread scenarios stay at bound 1 (bound 2 is
+	// >400k schedules per scenario, measured)
+	plans := []e2.Plan{{Scns: two, Bound: cb, NShards: ns}, {Scns: three, Bound: 1, NShards: ns}, {Scns: concMaintScenarios(), Bound: 1, NShards: ns}}
 	scns = append(append([]string{}, scns...), concMaintScenarios()...)
 	if prop == "C02" {
 		// two stabilize rounds on one node (periodic task vs the advisory of a join/leave)
